@@ -86,7 +86,7 @@ namespace internal
 
 		Pointer operator->() const
 		{
-			MOMO_CHECK(mArray != nullptr);
+			MOMO_CHECK(mArray != nullptr && mIndex < mArray->GetCount());
 			return pvGetPointer(std::is_base_of<std::iterator_traits<Item*>,
 				ArrayIndexIteratorTraitsStd<Array, Item>>());
 		}
